@@ -235,6 +235,10 @@ def cases(th):
                 on_python_version = clause_admits(op, segs, (A, B, z3.IntVal(0)))
                 return [("C11.normalize.admits-the-full-versions-whose-python_version-satisfies-the-atom", on_full == on_python_version)]
             yield {"name": f"normalize|{op}|{shape}", "pre": pre + [A >= 0, B >= 0, C >= 0], "thunk": (lambda ex, m=m: ex.call_function(f, [m], inline=True)), "post": post, "args": ()}
+            # the same atom after its own specifier view has been computed and cached (the lazily filled `_specifier`): the result must not depend on that
+            m2 = atom(th, op, segs)
+            m2.fields["_specifier"] = ParsedSpec(Clause(op, Dotted(segs)))
+            yield {"name": f"normalize|{op}|{shape}|view-cached", "pre": pre + [A >= 0, B >= 0, C >= 0], "thunk": (lambda ex, m=m2: ex.call_function(f, [m], inline=True)), "post": post, "args": ()}
     # the bridge plumbing: the specifier view of a version atom is the parse of its own clause, whatever the variable
     for name in ("python_version", "python_full_version", "platform_release"):
         for op in OPS:
